@@ -827,6 +827,11 @@ def parse_range_header(
                 begin = _plain_int(item)
             except ValueError:
                 return None
+
+            # A suffix-length of zero is not satisfiable, "-0" is not "0-".
+            if begin == 0:
+                return None
+
             end = None
             last_end = -1
         elif "-" in item:
